@@ -97,9 +97,9 @@ theorem finalize_chainGood (sf : Bool) (tree : Val) (fl : Flags) (st : St) (fin 
           refine leakOKList_mono ?_ _ hl
           intro x hx
           exact mem_ckeys_cupdate.2 (Or.inl (by simpa [ckeys, effKeys] using hx))
-  refine ⟨hok, htf.1, ?_, hleak, ?_, hna'⟩
+  refine ⟨hok, htf.1, ?_, htf.2.1, hleak, ?_, hna'⟩
   · intro htail
-    apply htf.2
+    apply htf.2.2
     left
     intro hlen
     cases hc : rec.chain with
